@@ -29,7 +29,7 @@ func (r *Rediaron) DeleteProcessing(ctx context.Context, processing *types.Proce
 func (r *Rediaron) doLoadProcessing(ctx context.Context, appname, entryname string) (map[string]int, error) {
 	nodesCount := map[string]int{}
 	// 显式地加 / 保证 prefix 一致性
-	processingKey := filepath.Join(workloadProcessingPrefix, appname, entryname) + "/*"
+	processingKey := escapeGlob(filepath.Join(workloadProcessingPrefix, appname, entryname)) + "/*"
 	data, err := r.getByKeyPattern(ctx, processingKey, 0)
 	if err != nil {
 		return nil, err
